@@ -11,14 +11,17 @@ What is proved:
   * the round trip per location and shape for *both* flavours (code / specification) under the explicit `Encodable`
     side conditions, lifted through allOf / anyOf / oneOf (`decodeStyled_anyOf_first`, `…_oneOf_last`, `…_allOf_*`),
     and for nested deepObject at every depth (`nest_roundtrip`);
-  * `validateParameter = validateSpec` is NOT a theorem of the pinned code: it fails inside decidable exclusion classes,
-    each with a kernel-checked witness below (CookieExplode #31, EnumGoType #42, QueryObjAbsent, QueryObjNoProps,
-    DeepKeyJunk, UntypedSchema; for content-described parameters ContentMissing, ContentCookieAbsent). Outside them it IS
-    proved: `decodeStyled_impl_eq_spec_partial` (every schema, compositions included), `validate_eq_spec_partial`
+  * `validateParameter = validateSpec` is NOT a theorem of the pinned code: it fails inside three decidable exclusion
+    classes, each with a kernel-checked witness below (CookieExplode #31, EnumGoType #42, UntypedSchema). Outside them it
+    IS proved: `decodeStyled_impl_eq_spec_partial` (every schema, compositions included), `validate_eq_spec_partial`
     (every single-leaf schema), `validate_eq_spec_enumfree_partial` (every composition without enums),
-    `respHeader_eq_spec_partial`, `content_flavour_partial`;
-  * repaired and therefore class-free: primitive texts (`parsePrim_eq_specPrim`, F-C05-3 / 53dfa1b) and the object
-    builder (`makeObject` has one flavour, `makeObject_lookup_addl`, `addl_shadow_regression`, F-C05-4 / 997bea5).
+    `respHeader_eq_spec_partial`;
+  * repaired and therefore class-free (former witnesses are regression theorems): primitive texts (`parsePrim_eq_specPrim`,
+    F-C05-3 / 53dfa1b), the object builder (`makeObject_lookup_addl`, `addl_shadow_regression`, F-C05-4 / 997bea5), exploded
+    form objects that are not sent (`queryObj_absent`, `query_obj_absent_regression`, F-C05-5 / 404949f), free-form map query
+    parameters (`query_obj_noprops_regression`, F-C05-6 / aa57be9), deepObject keys with junk text (`deep_key_junk_regression`,
+    F-C05-7 / f73e4f9), content-described parameters (`content_absent`, `content_regression`, F-C05-9 / ea25ec8, F-C05-10 /
+    c3da93a).
 -/
 import KinModel.Style
 import KinModel.Lemmas.C05Str
@@ -1445,6 +1448,18 @@ theorem styleDefaults_eq_model :
     Gen.styleDefaults.all (fun r => match r with
       | .dflt l st ex => decide (defaultMethod l = (st, ex))
       | .unrecognised _ => false) = true := by
+  decide
+
+/-- style and explode are defaulted independently: `style: form` without `explode` explodes (query, cookie), `explode: true`
+without `style` is the location's default style, and what the document spells out is kept — every such cell is legal -/
+theorem smOf_defaults :
+    [Loc.path, .query, .header, .cookie].all (fun l =>
+      decide (smOf l none none = ⟨l, (defaultMethod l).1, (defaultMethod l).2⟩) &&
+      allStyles.all (fun st => decide (smOf l (some st) none = ⟨l, st, (defaultMethod l).2⟩)) &&
+      [false, true].all (fun ex => decide (smOf l none (some ex) = ⟨l, (defaultMethod l).1, ex⟩) &&
+        allStyles.all (fun st => decide (smOf l (some st) (some ex) = ⟨l, st, ex⟩)))) = true ∧
+    smOf .query (some .form) none = ⟨.query, .form, true⟩ ∧ smOf .cookie (some .form) none = ⟨.cookie, .form, true⟩ ∧
+    smOf .query (some .pipeDelimited) none = ⟨.query, .pipeDelimited, true⟩ ∧ smOf .path none (some true) = ⟨.path, .simple, true⟩ := by
   decide
 
 /-! ### translator table DecoderFmt (regenerated from openapi3filter/req_resp_decoder.go on every run) -/
